@@ -51,6 +51,10 @@ struct Scn {
     /// seconds over which the (then multi-packet) FDT instances are emitted and received - a paced or low-bitrate
     /// sender; every packet is stamped with its own sending time
     fdt_spread: f64,
+    /// Config::object_receive_once
+    receive_once: bool,
+    /// the object's packets carry no close-object flag (the object stays in the receiver while it has no FDT)
+    no_close_flag: bool,
 }
 
 fn fdt_packets(tsi: u64, inst: &Inst, sct: bool, hi_only: bool, data_len: usize, md5: &str, e: usize, spread: f64) -> Vec<(f64, Vec<u8>)> {
@@ -97,7 +101,7 @@ fn run(s: &Scn, skew: f64, data: &[u8]) -> Result<Outcome, util::PanicInfo> {
         let mut l = wire::enc_lct(tsi, 5, 0);
         // no close-object flag when the object travels before its FDT: the flag would (legitimately)
         // interrupt an object that has no FDT yet, which is not what this property is about
-        l.b = esi + 1 == k && !s.object_first;
+        l.b = esi + 1 == k && !s.object_first && !s.no_close_flag;
         let exts: Vec<Vec<u8>> = if s.inband_fti { vec![wire::ext_fti(&fti)] } else { vec![] };
         objp.push(wire::encode(&l, &exts, &wire::payload_id(0, 0, esi as u32, 0, 8), &data[esi * e..((esi + 1) * e).min(data.len())]));
     }
@@ -114,7 +118,7 @@ fn run(s: &Scn, skew: f64, data: &[u8]) -> Result<Outcome, util::PanicInfo> {
     timeline.sort_by(|a, b| a.0.partial_cmp(&b.0).unwrap());
     util::guarded(|| {
         let (b, log) = MonBuilder::new(Script::default());
-        let cfg = RxConfig { object_timeout: None, enable_fdt_expiration_check: s.check, ..Default::default() };
+        let cfg = RxConfig { object_timeout: None, enable_fdt_expiration_check: s.check, object_receive_once: s.receive_once, ..Default::default() };
         let mut rx = MultiReceiver::new(b, Some(cfg), false);
         let ep = UDPEndpoint::new(None, "224.0.0.1".into(), 3400);
         for (t, p) in &timeline {
@@ -189,7 +193,7 @@ fn main() {
                     for &check in &[true, false] {
                         for &object_first in &[false, true] {
                             for &transit in &[0.0f64, 0.2] {
-                                for variant in 0..7 {
+                                for variant in 0..9 {
                                     // publish at sender second pub_t (100.37 in the quick tier); Expires = floor + dur
                                     let expires = 100 + dur;
                                     let ts_obj_rel = expires as f64 + off;
@@ -197,7 +201,7 @@ fn main() {
                                         continue; // the object would travel before its FDT
                                     }
                                     let mut insts = vec![Inst { id: 1, ts_emit: pub_t, expires, lists: true, no_sct: false }];
-                                    let (ts_obj, inband_fti);
+                                    let (ts_obj, mut inband_fti);
                                     if object_first {
                                         // the object is emitted first; the FDT instance is emitted later, at expires+off
                                         ts_obj = pub_t - 1.0;
@@ -238,15 +242,32 @@ fn main() {
                                             let exp2 = if variant == 5 { t2.floor() as i64 + 3600 } else { t2.floor() as i64 - 20 };
                                             insts.push(Inst { id: 2, ts_emit: t2, expires: exp2, lists: true, no_sct: true });
                                         }
+                                        7 | 8 => {
+                                            // the carousel repeats the SAME instance (same id, same content, stamped with its new
+                                            // sending time) one second after the object's packets, which carry no close-object flag:
+                                            // an object still waiting for an FDT must not be attached through a copy of an instance
+                                            // that has expired since it was first decoded; with and without receive-once
+                                            if object_first {
+                                                continue;
+                                            }
+                                            inband_fti = variant == 7;
+                                            insts.push(Inst { id: 1, ts_emit: ts_obj + 1.0, expires, lists: true, no_sct: false });
+                                            for receive_once in [true, false] {
+                                                for cleanup in [false, true] {
+                                                    scns.push(Scn { insts: insts.clone(), ts_obj, object_first, sct, sct_hi_only, check, transit, inband_fti, cleanup, fdt_spread: 0.0, receive_once, no_close_flag: true });
+                                                }
+                                            }
+                                            continue;
+                                        }
                                         _ => {}
                                     }
                                     for cleanup in [false, true] {
-                                        scns.push(Scn { insts: insts.clone(), ts_obj, object_first, sct, sct_hi_only, check, transit, inband_fti, cleanup, fdt_spread: 0.0 });
+                                        scns.push(Scn { insts: insts.clone(), ts_obj, object_first, sct, sct_hi_only, check, transit, inband_fti, cleanup, fdt_spread: 0.0, receive_once: true, no_close_flag: false });
                                     }
                                     // the single-instance, FDT-first scenarios also with an FDT of several packets received over
                                     // 8 seconds (it is complete well before the object starts)
                                     if variant == 0 && !object_first && ts_obj_rel > pub_t + 8.0 + 1.0 {
-                                        scns.push(Scn { insts: insts.clone(), ts_obj, object_first, sct, sct_hi_only, check, transit, inband_fti, cleanup: false, fdt_spread: 8.0 });
+                                        scns.push(Scn { insts: insts.clone(), ts_obj, object_first, sct, sct_hi_only, check, transit, inband_fti, cleanup: false, fdt_spread: 8.0, receive_once: true, no_close_flag: false });
                                     }
                                 }
                             }
@@ -291,7 +312,7 @@ fn main() {
                 any |= !o.writers.is_empty() || o.fdt_callbacks > 0;
                 let delivered = o.writers.iter().any(|w| w.0.ends_with("C"));
                 let want = expected(s, skew);
-                let f = |v: Violation| v.with("sct", s.sct).with("sct_hi_only", s.sct_hi_only).with("cleanup_calls", s.cleanup).with("fdt_received_over_seconds", s.fdt_spread > 0.0).with("check", s.check).with("object_first", s.object_first).with("instances", s.insts.len() as u64).with("an_instance_without_sct", s.insts.iter().any(|i| i.no_sct)).with("skew_zero", skew == 0.0).with("skew_sign", if skew < 0.0 { "neg" } else { "pos" }).with("skew_abs_gt_1day", skew.abs() > 86400.0);
+                let f = |v: Violation| v.with("sct", s.sct).with("sct_hi_only", s.sct_hi_only).with("cleanup_calls", s.cleanup).with("fdt_received_over_seconds", s.fdt_spread > 0.0).with("check", s.check).with("object_first", s.object_first).with("instances", s.insts.len() as u64).with("an_instance_without_sct", s.insts.iter().any(|i| i.no_sct)).with("instance_repeated", s.no_close_flag).with("receive_once", s.receive_once).with("skew_zero", skew == 0.0).with("skew_sign", if skew < 0.0 { "neg" } else { "pos" }).with("skew_abs_gt_1day", skew.abs() > 86400.0);
                 if delivered != want {
                     cr.violations.push(f(Violation::new(if want { "valid_fdt_but_not_delivered" } else { "delivered_through_expired_fdt" }, format!(
                         "receiver skew {} s: object {} although the reference says {} (writers {:?}); scenario {:?}", skew, if delivered { "delivered" } else { "not delivered" }, if want { "deliver" } else { "do not deliver" }, o.writers, s)))
